@@ -316,10 +316,13 @@ func (b *ByteBuffer) WriteTo(w io.Writer) (int64, error) {
 
 	for b.si+writtenBytes < b.ri {
 		n, err = w.Write(b.data[b.si+writtenBytes : b.ri])
+		// A writer may report the bytes it accepted together with the error which stopped it: those bytes are gone.
+		if n > 0 {
+			writtenBytes += n
+		}
 		if err != nil {
 			break
 		}
-		writtenBytes += n
 	}
 	b.Consume(writtenBytes)
 	return int64(writtenBytes), err
